@@ -66,11 +66,14 @@ def predsOf (g : Graph α ρ) (v : α) : List α :=
 def addNode (g : Graph α ρ) (n : α) : Graph α ρ :=
   if n ∈ g.nodes then g else ⟨g.adj ++ [(n, [])]⟩
 
+/-- `G._succ[u] = s` (helper: replace the successor dict of one node) -/
+def setSucc (g : Graph α ρ) (u : α) (s : List (α × ρ)) : Graph α ρ := ⟨alSet g.adj u s⟩
+
 /-- `G.add_edge(u, v, rate=r)`: adds missing endpoints (u first), replaces the data of an
     existing edge in place, appends a new one. -/
 def addEdge (g : Graph α ρ) (u v : α) (r : ρ) : Graph α ρ :=
   let g1 := (g.addNode u).addNode v
-  ⟨alSet g1.adj u (alSet (g1.succOf u) v r)⟩
+  g1.setSucc u (alSet (g1.succOf u) v r)
 
 /-- `G.remove_node(n)` for a node that is present -/
 def removeNode (g : Graph α ρ) (n : α) : Graph α ρ :=
@@ -78,7 +81,7 @@ def removeNode (g : Graph α ρ) (n : α) : Graph α ρ :=
 
 /-- `G.remove_edge(u, v)` for an edge that is present -/
 def removeEdge (g : Graph α ρ) (u v : α) : Graph α ρ :=
-  ⟨alSet g.adj u (alErase (g.succOf u) v)⟩
+  g.setSucc u (alErase (g.succOf u) v)
 
 /-- `G.add_edges_from(es)` -/
 def addEdges (g : Graph α ρ) (es : List (α × α × ρ)) : Graph α ρ :=
@@ -127,6 +130,10 @@ def relabel (g : Graph α ρ) (mapping : List (α × α)) : Option (Graph α ρ)
     order.foldl (fun g old => match alGet? mapping old with
       | some new => g.relabel1 old new
       | none => g) g)
+
+/-- apply a function to every rate (`cb._g.edges[u, v]['rate'] = rate.subs(...)` for all edges) -/
+def mapRates (g : Graph α ρ) (f : ρ → ρ) : Graph α ρ :=
+  ⟨g.adj.map (fun p => (p.1, p.2.map (fun q => (q.1, f q.2))))⟩
 
 /-- `G.edges.data('rate')`: all edges in (node order, successor order) -/
 def edges (g : Graph α ρ) : List (α × α × ρ) :=
